@@ -8,3 +8,6 @@ import FP.Props.C16
 #print axioms FP.Props.C16.unimplemented_explicit
 #print axioms FP.Props.C16.names_unique
 #print axioms FP.Props.C16.experimental_preserves_base
+#print axioms FP.Props.C16.expr_call_accepted_iff
+#print axioms FP.Props.C16.expr_call_bad_argument
+#print axioms FP.Props.C16.expr_unimplemented_fails
